@@ -31,6 +31,7 @@ const header = "^Floodgate^>" // IDENTIFIER + (char)(VERSION + MAGIC), VERSION 0
 
 type tcase struct {
 	Ks       int    `json:"ks"`
+	KeyKind  string `json:"keykind"`
 	WrongKey bool   `json:"wrongkey"`
 	Mut      string `json:"mut"`
 	Shape    string `json:"shape"`
@@ -159,6 +160,22 @@ func TestTrace(t *testing.T) {
 	st := &stats{ReadOut: map[string]int{}, MutOut: map[string]int{}, WriteOut: map[string]int{}}
 	rng := rand.New(rand.NewSource(tracefmt.Seed()))
 	randBytes := func(n int) []byte { b := make([]byte, n); rng.Read(b); return b }
+	// keyOf makes a raw key of n bytes: random, all Base64 alphabet characters, or such text with "=="
+	const b64abc = "ABCDEFGHIJKLMNOPQRSTUVWXYZabcdefghijklmnopqrstuvwxyz0123456789+/"
+	keyOf := func(kind string, n int) []byte {
+		if kind != "b64text" && kind != "b64pad" {
+			return randBytes(n)
+		}
+		b := make([]byte, n)
+		for i := range b {
+			b[i] = b64abc[rng.Intn(64)]
+		}
+		if kind == "b64pad" {
+			b[n-3] = b64abc[16*rng.Intn(4)] // the spare bits of the last quantum zero: canonical Base64 text
+			b[n-2], b[n-1] = '=', '='
+		}
+		return b
+	}
 
 	var cases []tcase
 	cb, err := os.ReadFile(filepath.Join(tracefmt.OutDir(), "cases.json"))
@@ -171,7 +188,7 @@ func TestTrace(t *testing.T) {
 
 	// 1. the TLC cases
 	for i, c := range cases {
-		key := randBytes(c.Ks)
+		key := keyOf(c.KeyKind, c.Ks)
 		fg, err := floodgate.NewFloodgate(key)
 		if err != nil {
 			t.Fatal(err)
@@ -328,7 +345,7 @@ func TestTrace(t *testing.T) {
 	// 3. what the proxy writes, read by the reference decoder
 	nw := tracefmt.EnvInt("VERIF_WRITES", 120)
 	for i := 0; i < nw; i++ {
-		key := randBytes([]int{16, 24, 32}[i%3])
+		key := keyOf([]string{"random", "b64text", "random", "b64pad", "b64text"}[i%5], []int{16, 24, 32}[i%3])
 		fg, _ := floodgate.NewFloodgate(key)
 		shape := []string{"ok", "unicode", "ok", "os99"}[i%4]
 		f := fieldsFor(shape, i, rng)
